@@ -93,7 +93,9 @@ def _matches(src, s, e, kind, name):
         want = " ".join(name.split())
         stripped = re.sub(r"<[^<>]*(<[^<>]*>[^<>]*)*>", "", header_n)
         stripped = " ".join(stripped.split())
-        if want == stripped[len("impl"):].strip() or want == header_n[len("impl"):].strip():
+        cands = [stripped[len("impl"):].strip(), header_n[len("impl"):].strip()]
+        cands += [re.split(r"\bwhere\b", c)[0].strip() for c in cands]   # headers with a where clause
+        if want in cands:
             return (s, e, kw, brace)
         return None
     m = re.match(r"%s\s+([A-Za-z_][A-Za-z0-9_]*)" % kind, header_n)
